@@ -24,6 +24,7 @@ var pinnedFuncs = map[string][]string{
 		// C16
 		"LoadUserProfile", "SaveUserProfile", "u2fTokenManagerHandler", "totpTokenManagerHandler",
 		"BootstrapOtpAuthHandler", "userBootstrapOtpHash", "performStateCleanup",
+		"consumeLoginChallenge", "u2fSignRequest", "u2fSignResponse", "webauthnAuthLogin", "webauthnAuthFinish",
 	},
 	"lib/certgen": {"VerifyIPRestrictedX509CertIP", "IsIPRestrictedX509Cert"},
 }
